@@ -122,12 +122,22 @@ pub fn check_split(ctx: &mut Ctx, sources: &[String], adopt: bool, label: &str) 
 /// Claim 2: `defs[ext]` is an extension placed after its definition `defs[def]`; move it to just
 /// before the definition.
 pub fn check_move(ctx: &mut Ctx, defs: &[String], def: usize, ext: usize, only_ext_of_target: bool, adopt: bool, what: &str) {
+    // two destinations: right before the definition, and the very beginning of the document (so
+    // that other definitions and orphan extensions sit between the extension and its definition)
+    check_move_to(ctx, defs, def, ext, only_ext_of_target, adopt, what, false);
+    if def > 0 {
+        check_move_to(ctx, defs, def, ext, only_ext_of_target, adopt, what, true);
+    }
+}
+
+#[allow(clippy::too_many_arguments)]
+pub fn check_move_to(ctx: &mut Ctx, defs: &[String], def: usize, ext: usize, only_ext_of_target: bool, adopt: bool, what: &str, to_front: bool) {
     ctx.eval();
     let mut moved: Vec<String> = defs.to_vec();
     let e = moved.remove(ext);
-    moved.insert(def, e);
+    moved.insert(if to_front { 0 } else { def }, e);
     let case = json!({"kind": "schema_move", "defs": defs, "definition_index": def, "extension_index": ext,
-                      "only_extension_of_target": only_ext_of_target, "adopt_orphan_extensions": adopt});
+                      "only_extension_of_target": only_ext_of_target, "adopt_orphan_extensions": adopt, "to_front": to_front});
     ctx.inflight("C13", case.to_string().as_bytes());
     let r = rt::catch(|| {
         let a = build_schema(&[defs.join("\n")], adopt);
@@ -311,17 +321,21 @@ fn add_collisions(rng: &mut Rng, doc: &mut Doc) -> &'static str {
             "kind-mismatched-extension"
         }
         2 => {
-            // orphan extension
-            let mut e = TypeDef::new(Kind::Object, "NoSuchType");
-            e.ext = true;
-            e.fields.push(FieldDef {
-                desc: None,
-                name: "x".into(),
-                args: vec![],
-                ty: TyRef::named("Int"),
-                dirs: vec![],
-            });
-            doc.defs.insert(at, Def::Type(e));
+            // one to three orphan extensions of distinct undefined types, at random positions
+            let n = rng.range(1, 3);
+            for i in 0..n {
+                let mut e = TypeDef::new(Kind::Object, &format!("NoSuchType{i}"));
+                e.ext = true;
+                e.fields.push(FieldDef {
+                    desc: None,
+                    name: "x".into(),
+                    args: vec![],
+                    ty: TyRef::named("Int"),
+                    dirs: vec![],
+                });
+                let at = rng.below(doc.defs.len() + 1);
+                doc.defs.insert(at, Def::Type(e));
+            }
             "orphan-type-extension"
         }
         3 => {
@@ -440,6 +454,10 @@ const MOVE_SPECIALS: &[(&[&str], usize, usize, bool)] = &[
     (&["schema { query: Query }", "extend schema { mutation: M }", "type Query { q: Int }", "type M { m: Int }"], 0, 1, true),
     (&["schema { query: Query }", "extend schema { query: M }", "type Query { q: Int }", "type M { m: Int }"], 0, 1, true),
     (&["type Query { q: Int }", "type M { m: Int }", "extend schema { mutation: M }"], 0, 2, true),
+    // several orphan extensions around a definition + extension pair (adopt mode keeps them)
+    (&["type Query { q: Int }", "type A { a: Int }", "extend type A { a2: Int }", "extend type B { b: Int }", "extend type C { c: Int }"], 1, 2, true),
+    (&["type Query { q: Int }", "extend type B { b: Int }", "type A { a: Int }", "extend type C { c: Int }", "extend type A { a2: Int }", "extend type D { d: Int }"], 2, 4, true),
+    (&["type Query { q: Int }", "extend type B { b: Int }", "extend type C { c: Int }", "type A { a: Int }", "extend type A { a2: Int }"], 3, 4, true),
 ];
 
 pub fn run(ctx: &mut Ctx) {
@@ -578,7 +596,7 @@ pub fn replay(ctx: &mut Ctx, case: &Value) {
     let adopt = case.get("adopt_orphan_extensions").and_then(|v| v.as_bool()).unwrap_or(false);
     match case.get("kind").and_then(|k| k.as_str()) {
         Some("schema_split") => check_split(ctx, &strs("sources"), adopt, "replay"),
-        Some("schema_move") => check_move(
+        Some("schema_move") => check_move_to(
             ctx,
             &strs("defs"),
             case["definition_index"].as_u64().unwrap_or(0) as usize,
@@ -586,6 +604,7 @@ pub fn replay(ctx: &mut Ctx, case: &Value) {
             case["only_extension_of_target"].as_bool().unwrap_or(false),
             adopt,
             "replay",
+            case["to_front"].as_bool().unwrap_or(false),
         ),
         Some("exec_split") => check_exec_split(
             ctx,
